@@ -544,6 +544,7 @@ def main(argv):
         soft = sorted((i for i, e in all_err.items() if is_soft(e)), key=lambda i: len(cases[i]["ops"]))
         tie_fail = sorted(i for i, e in all_err.items() if has_code(e, TIE) and not has_code(e, HARD + SOFT))
         F12 = "C16/slot-not-set-after-silent-best"
+        reported_other = False
         if soft:
             # the only disagreement: a connectivity slot reads 0 while the group's set for that type has a member
             i = soft[0]
@@ -553,12 +554,11 @@ def main(argv):
             if f3 or 0 not in errs or not is_soft(errs[0]):
                 small, errs, results = cases[i], {0: all_err[i]}, [all_res[i]]
             info = describe(small, results[0], errs[0], SOFT)
-            out.violation("impl_vs_spec_slot", {"case": small, "errors": [(a, b) for a, b, _ in errs[0]], "first_failing_step": info, "matchers": [F12],
+            reported_other = "violation" == out.violation("impl_vs_spec_slot", {"case": small, "errors": [(a, b) for a, b, _ in errs[0]], "first_failing_step": info, "matchers": [F12],
                                                 "how": "./check C16 --replay <this file>: after the named step a latency-policy group has an alive member for the type but its connectivity slot still holds 0"},
                           "connectivity slot of a latency-policy group stays 0 after a node of that type revived (step %d, %s); %d histories show only this" % (info["step"], json.dumps(info.get("op")), len(soft)),
                           matchers=[F12])
         seen = set()
-        reported_other = False
         for i in hard[:8]:
             e = all_err[i]
             if has_code(e, (9,)):
